@@ -54,13 +54,16 @@ Check(ev) ==
       \* C19: clear() interrupted by a panicking destructor (ev.fclear = k > 0): afterwards the set
       \* lists nothing that was destroyed, accepts a new amount, and nothing is destroyed twice;
       \* what it still lists besides the new amount is unspecified (leaks are allowed)
-      wantPost == IF ev.fclear = 0 THEN <<>> ELSE <<<<ev.pairs[1][1], "77">>>>
-      wantValueF == IF ev.take < 0 \/ ev.take >= 1 THEN wantPost ELSE <<>>
+      \* (ev.refill: the pairs added after the clear, accumulated like any others)
+      wantPost == IF ev.fclear = 0 THEN <<>> ELSE Listing(ev.refill, Mentioned(ev.refill))
+      wantValueF == SubSeq(wantPost, 1, IF ev.take < 0 \/ ev.take > Len(wantPost) THEN Len(wantPost) ELSE ev.take)
   IN IF ev.panic # "" THEN {F("C16", "panic", ev.panic), F("C08", "panic", ev.panic)}
      ELSE IF ev.fclear > 0 THEN
        (IF ev.ref # want THEN {F("C16", "accumulated amounts (got, expected)", <<ev.ref, want>>)} ELSE {})
        \cup (IF ev.exposed # <<>> THEN {F("C19", "after an interrupted clear() the change set still lists destroyed values", ev.exposed)} ELSE {})
-       \cup (IF L.anomalies # <<>> THEN {F("C19", "a value of the change set was destroyed twice", L.anomalies)} ELSE {})
+       \cup (IF L.anomalies # <<>> THEN {F("C19", "a value of the change set was destroyed twice", L.anomalies),
+                                         F("C08", "a value of the change set was destroyed twice", L.anomalies)} ELSE {})
+       \cup (IF ev.exposed # <<>> THEN {F("C08", "the change set hands out values that were already destroyed", ev.exposed)} ELSE {})
        \cup (IF ~ev.fired /\ (ev.post_clear # wantPost \/ ev.value # wantValueF)
              THEN {F("C16", "after clear() the change set must hold only what is added afterwards (got, expected)", <<ev.post_clear, wantPost>>)} ELSE {})
      ELSE
